@@ -17,6 +17,7 @@ bytes the server put on the wire split into exactly N self-delimited messages
 succeeds; responses handed out earlier are unchanged at the end; no service
 call raises.
 """
+import zlib
 import time
 
 from vf import httpgen as hg
@@ -96,12 +97,16 @@ def one_case(ctx, rng, idx, mem, deadline):
                 rq.pop("body", None)
                 rq.pop("data", None)
                 rq["headers"] = [h for h in rq["headers"] if h[0].lower() != "content-type"]
-                specs[rid] = hg.gen_appspec(rng, rid, shapes=("empty", "empty-cl0"), statuses=[200, 404])
+                specs[rid] = hg.gen_appspec(rng, rid, shapes=("empty", "empty-cl0"), statuses=[200, 404], bodiless="HEAD")
             else:
-                specs[rid] = hg.gen_appspec(rng, rid, shapes=("empty", "empty-cl0"), statuses=[204, 304])
+                specs[rid] = hg.gen_appspec(rng, rid, shapes=("empty", "empty-cl0"), statuses=[204, 304], bodiless=True)
             bodiless = True
             continue
         specs[rid] = hg.gen_appspec(rng, rid, shapes=SHAPES, statuses=[200, 201, 202, 203, 206, 400, 404, 500])
+        if specs[rid]["shape"] in ("stream", "stream-gaps") and zlib.crc32(rid.encode()) % 3 == 0:
+            # the application fails with an ordinary exception after its last piece: the response is still delimited
+            specs[rid]["crash_end"] = True
+            ctx.hit("streams_whose_application_fails_at_the_end")
     shapes = [specs[r["id"]]["shape"] for r in reqs]
     seen = []
     app = hg.make_app(lambda environ: specs[environ.get("HTTP_X_VF_ID")], seen)
@@ -391,3 +396,4 @@ def run(ctx):
         ctx.floor("shape:%s:later" % sh, total // 10)
     ctx.floor("n:8", total // 30)
     ctx.floor("sequences_with_bodiless_response", total // 10)
+    ctx.floor("streams_whose_application_fails_at_the_end", 30)
